@@ -1961,7 +1961,7 @@ def wq_line(orb):
     name = orb._data.get("name") or ""
     cid = orb._data.get("cospar_id", "")
     y, _, piece = cid.partition("-")
-    toks = ["tle.wq", hx(name), hx(str(orb._data.get("norad_id", "99999"))), hx(y[2:] + piece), str(own), str(own - utc)]
+    toks = ["tle.wq", hx(name), str(int(orb._data.get("norad_id", 99999))), hx(y[2:] + piece), str(own), str(own - utc)]
     toks += q_tokens(v["ndot"], True) + q_tokens(v["ndotdot"], True) + q_tokens(v["bstar"], True) + [str(orb.element_nb)]
     for k in ("i", "Ω", "e", "ω", "M", "n"):
         toks += q_tokens(v[k])
